@@ -18,6 +18,7 @@ import (
 	metav1 "k8s.io/apimachinery/pkg/apis/meta/v1"
 	"k8s.io/apimachinery/pkg/types"
 	"k8s.io/apimachinery/pkg/util/sets"
+	"k8s.io/client-go/tools/record"
 
 	"volcano.sh/apis/pkg/apis/scheduling"
 	"volcano.sh/volcano/pkg/scheduler/api"
@@ -242,6 +243,9 @@ var mockCache *cache.SchedulerCache
 func openVotes(s VSpec) *voteWorld {
 	if mockCache == nil {
 		mockCache = cache.NewDefaultMockSchedulerCache("verif")
+		// the default FakeRecorder has a 100-event channel nobody reads: a rejected enqueue vote
+		// records a PodGroup event and would block; a recorder without channel drops them
+		mockCache.Recorder = &record.FakeRecorder{}
 	}
 	w := &voteWorld{spec: s}
 	snap := &api.ClusterInfo{
@@ -388,10 +392,10 @@ type qRecord struct {
 // records reads the per-queue records of the plugin, sorted by queue id.
 func (w *voteWorld) records() []qRecord {
 	type raw struct {
-		name                                  string
+		name                       string
 		alloc, inq, ela, des, rcap *api.Resource
-		anc                                   []api.QueueID
-		children                              int
+		anc                        []api.QueueID
+		children                   int
 	}
 	raws := []raw{}
 	if w.spec.Kind == kProp {
